@@ -42,7 +42,8 @@ RULE = ("job shop: 1-6 jobs of 1-6 ops over 1-4 machine labels with gaps, repeat
         "multi-vehicle customers, fleets 1-4, weights, seeds, short ALNS runs replayed with recording "
         "wrappers + direct operator calls on recorded states + scripted operator sequences; non-trivial "
         "= >= 1 destroy step that removed and >= 1 repair step that inserted a customer")
-TOL = [1, 10 ** 6]
+TOL = [1, 10 ** 6]    # absolute: arrival times, objective
+REL = [1, 10 ** 12]  # relative slack: objective (large penalty sums), squared distances
 
 DESTROY = ["random_removal", "worst_removal", "related_removal", "route_removal", "sync_removal"]
 REPAIR = ["greedy_insertion", "regret_insertion", "sync_aware_insertion"]
@@ -92,19 +93,26 @@ def gen_problem(rng, big):
 
     def co():
         return rng.randint(-span * grid, span * grid) / grid if grid > 1 else rng.randint(-span, span)
-    tight = rng.random() < 0.5
+    tight = rng.random() < 0.3
+    depot = [0, 0] if rng.random() < 0.6 else [co(), co()]
     custs = []
     for i in range(1, n + 1):
+        x, y = co(), co()
+        reach = int(((x - depot[0]) ** 2 + (y - depot[1]) ** 2) ** 0.5) + 1
         tws = rng.choice([0, 0, 0, 5, 10, 20, 2.5])
-        twe = None if rng.random() < (0.2 if tight else 0.6) else tws + rng.choice([1, 3, 8, 15, 30, 60])
-        custs.append([i, co(), co(), rng.choice([0, 1, 2, 3, 5, 2.5]), tws, twe, rng.choice([0, 0, 1, 2.5]),
+        if rng.random() < (0.2 if tight else 0.5):
+            twe = None
+        elif rng.random() < (0.25 if tight else 0.03):
+            twe = tws + rng.choice([1, 3, 8])              # often unreachable in time
+        else:
+            twe = max(tws, reach) + rng.choice([0, 3, 8, 15, 30, 60])
+        custs.append([i, x, y, rng.choice([0, 1, 2, 3, 5, 2.5]), tws, twe, rng.choice([0, 0, 1, 2.5]),
                       rng.choice([2, 2, 3]) if i in multi else 1])
-    cap = rng.choice([None, None, 4, 8, 15, 30])
+    cap = rng.choice([None, None, 4, 8, 15, 30] if tight else [None, None, None, 15, 30])
     if rng.random() < 0.3:
         vehicles = [[v, rng.choice([None, 3, 6, 12, 25])] for v in range(fleet)]
     else:
         vehicles = fleet
-    depot = [0, 0] if rng.random() < 0.6 else [co(), co()]
     weights = {}
     if rng.random() < 0.5:
         for key, vals in (("distance_weight", [1.0, 0.5, 2.0]), ("vehicle_weight", [0.0, 10.0, 2.5]),
@@ -346,7 +354,8 @@ def vrp_request(case, out):
     req = ["vrp", n, [1] + [c[7] for c in cs], [[rat(x) for x in row] for row in out["dist"]],
            [rat(0)] + [rat(c[3]) for c in cs], [rat(0)] + [rat(c[4]) for c in cs],
            [None] + [None if c[5] is None else rat(c[5]) for c in cs], [rat(0)] + [rat(c[6]) for c in cs],
-           caps, [rat(W[k]) if k in W else None for k in WKEYS], TOL, states, steps]
+           caps, [rat(W[k]) if k in W else None for k in WKEYS], TOL, REL,
+           [[rat(case["depot"][0]), rat(case["depot"][1])]] + [[rat(c[1]), rat(c[2])] for c in cs], states, steps]
     return req, ids, final_id
 
 
@@ -412,7 +421,11 @@ def judge_vrp(ctx, case, o, reply, ids, final_id):
         ctx.case(["vrp", case], False)
         return
     out = o[1]
-    sv, tv = reply
+    sv, tv, euclid = reply
+    if not euclid:
+        ctx.fail("VRPState.from_problem", "distance_not_euclidean", "cached distance matrix is not the Euclidean "
+                 "distance of the coordinates (non-negative, symmetric, d^2 = dx^2 + dy^2 within 1e-12 relative)",
+                 {**rep, "dist": out["dist"]})
     multi = {c[0] for c in case["customers"] if c[7] > 1}
     ctx.count("vrp:script" if "script" in case else "vrp:solve")
     ctx.count(f"vrp:n={len(case['customers'])}")
@@ -507,9 +520,10 @@ def run(ctx, budget):
     ctx.cov["rule"] = RULE
     big = ctx.tier == "thorough"
     cases = list(js_edges()) + [c["case"] for c in core.load_corpus("C18")]
-    cases += [gen_js(ctx.rng, big and i % 3 == 0) for i in range(700 * budget)]
-    cases += [gen_vrp(ctx.rng, big and i % 3 == 0) for i in range(260 * budget)]
-    run_cases(ctx, cases)
+    cases += [gen_js(ctx.rng, big and i % 3 == 0) for i in range(3000 * budget)]
+    cases += [gen_vrp(ctx.rng, big and i % 3 == 0) for i in range(2000 * budget)]
+    for i in range(0, len(cases), 2500):  # bounded memory: one batch of requests/replies at a time
+        run_cases(ctx, cases[i:i + 2500])
 
 
 def replay(ctx, body):
